@@ -153,14 +153,30 @@ Lemma undefined_references_rejected :
         mkDocRefs "ES" [] "bill/order" ["simplified"] [] [] [] [];
         mkDocRefs "ES" [] "bill/invoice" [] [mkComboRef "" "QQ" "" "" []] [] [] [];
         mkDocRefs "ES" [] "bill/invoice" [] [mkComboRef "" "VAT" "zz-unknown" "" []] [] [] [];
+        mkDocRefs "ES" [] "bill/invoice" [] [mkComboRef "" "VAT" "bogus+standard" "" []] [] [] [];
         mkDocRefs "ES" [] "bill/invoice" [] [mkComboRef "" "VAT" "standard" "QQ" []] [] [] [];
         mkDocRefs "ES" [] "bill/invoice" [] [] [mkExtRef "" "zz-unknown" "1"] [] [];
         mkDocRefs "ES" [] "bill/invoice" [] [] [mkExtRef "" "es-facturae-doc-type" "QQ"] [] [];
         mkDocRefs "ES" [] "bill/invoice" [] [] [] [mkCurrencyRef "" "XXX"] [];
         mkDocRefs "ES" [] "bill/invoice" [] [] [] [] [mkCountryRef "" CkISO "QQ"];
         mkDocRefs "ES" [] "bill/invoice" [] [] [] [] [mkCountryRef "" CkRegime "QQ"] ]
-  = repeat false 11.
+  = repeat false 12.
 Proof. vm_compute. reflexivity. Qed.
+
+(* a rate key whose first component is not a rate of the category: refused by the rule after the repair
+   (Key.HasPrefix), accepted by the rule as shipped before it (Key.Has: `standard` is SOME component);
+   `bogus` alone was always refused, a defined first component with free suffixes is still accepted *)
+Lemma rate_key_any_part_witness :
+  let es := regime_for in_code_defs "ES" in
+  in_category_rates_any_part es "VAT" "bogus+standard" = true /\
+  in_category_rates es "VAT" "bogus+standard" = false /\
+  in_category_rates es "VAT" "bogus" = false /\
+  in_category_rates es "VAT" "bogus+standard+x" = false /\
+  in_category_rates es "VAT" "eqs+standard" = false /\
+  in_category_rates es "VAT" "standard+bogus" = true /\
+  in_category_rates es "VAT" "standard+eqs" = true /\
+  in_category_rates es "VAT" "exempt+reverse-charge" = true.
+Proof. vm_compute. repeat split. Qed.
 
 Lemma c18_table_sizes :
   (19 <= Z.of_nat (List.length (df_regimes in_code_defs)))%Z /\ (14 <= Z.of_nat (List.length (df_addons in_code_defs)))%Z /\
